@@ -68,6 +68,13 @@ def step (st : St) (j : Json) : St × Json :=
       if obsM.compress == obsS.compress then (st', Json.mkObj [("obs", obsM)])
       else (st', Json.mkObj [("obs", obsM), ("spec", Json.mkObj [("obs", obsS)]), ("kf", "C04-reopen-not-transparent")])
     | _, _, _ => (st, Drv.bad "observe: ids/eids/labels")
+  | some "weak" =>
+    -- the weak invariant on the CURRENT state (asked after the calls that follow a crash: what a
+    -- killed call left behind must not become visible later, e.g. by re-creating a graph)
+    let weak := weakInvB st.m.kv
+    if weak then (st, Json.mkObj [("weak", Json.bool true)])
+    else (st, Json.mkObj [("weak", Json.bool false), ("spec", Json.mkObj [("weak", Json.bool true)]),
+                          ("kf", "C04-weakinv-after-crash")])
   | some "crash" =>
     match val? j "inner", nat? j "k" with
     | some inner, some k =>
